@@ -34,10 +34,12 @@ Proof. unfold lookup_over. apply flat_map_app. Qed.
 Section Proofs.
   Variable sro : N -> list N.
 
-  Definition Wb := std_wb Local.
-  Definition Kk : list instr := [IfNonEmpty Wb; Return].
-  Definition Gb : list instr := [InitViews; QueryAll; IfNonEmpty Wb].
-  Definition LPs := std_lookup Local true.
+  (* body of [if views:] -- the translated one (with the lock) or one of the two lock-free variants *)
+  Variable wb : list instr.
+  Hypothesis Hwb : wb = std_wb Local \/ wb = wb_nolock \/ wb = wb_nolock_split.
+  Definition Kk : list instr := [IfNonEmpty wb; Return].
+  Definition Gb : list instr := [InitViews; QueryAll; IfNonEmpty wb].
+  Definition LPs := lookup_with wb.
   Definition RPs := std_register Swap.
 
   Notation slots := (slots_of sro).
@@ -67,7 +69,7 @@ Section Proofs.
     | S4 : cont t = QueryAll :: Kk -> tc t <> None -> tviews t = Some [] -> lk_ok t
     | S5 vs done todo : cont t = map Query todo ++ Kk -> tc t <> None -> tviews t = Some vs ->
                done ++ todo = slots (tkey t) -> consistent t vs done -> lk_ok t
-    | S7 vs : cont t = Wb ++ [Return] -> tc t <> None -> tviews t = Some vs -> vs <> [] ->
+    | S7 vs : cont t = wb ++ [Return] -> tc t <> None -> tviews t = Some vs -> vs <> [] ->
                consistent t vs (slots (tkey t)) -> lk_ok t
     | S8 vs : cont t = [Write Local; Unlock; Return] -> tc t <> None -> tviews t = Some vs -> vs <> [] ->
                consistent t vs (slots (tkey t)) -> lk_ok t
@@ -75,7 +77,12 @@ Section Proofs.
                consistent t vs (slots (tkey t)) -> lk_ok t
     | S10 vs : cont t = [Return] -> tc t <> None -> tviews t = Some vs ->
                consistent t vs (slots (tkey t)) -> lk_ok t
-    | S11 : cont t = [] -> lk_ok t.
+    | S11 : cont t = [] -> lk_ok t
+    | SU8 vs d : cont t = [WriteStore Local; Return] -> tc t <> None -> tviews t = Some vs -> vs <> [] ->
+               consistent t vs (slots (tkey t)) -> tsnap t = Some d ->
+               (forall k v, dget d k = Some v -> v <> []) ->
+               (tc t = Some cu -> q -> forall k v, dget d k = Some v -> v = lookup_over Rg (slots k)) ->
+               lk_ok t.
   End Shapes.
 
   Definition rg_ok (t : thread) : Prop :=
@@ -106,7 +113,8 @@ Section Proofs.
     { intros vs sl Hc H1 H2. destruct (F H1 H2) as (A & B & ->). auto. }
     destruct H;
       [ eapply S0 | eapply S1 | eapply S2m | eapply S2h | eapply S3 | eapply S4 | eapply S5
-      | eapply S7 | eapply S8 | eapply S9 | eapply S10 | eapply S11 ]; eauto.
+      | eapply S7 | eapply S8 | eapply S9 | eapply S10 | eapply S11 | eapply SU8 ]; eauto.
+    intros H9 H10 k0 v0 Hk0. destruct (F H9 H10) as (A1 & B1 & ->). eauto.
   Qed.
 
   Lemma midway_lookup t : tkind t = KLookup -> midway t = false.
@@ -218,6 +226,32 @@ Section Proofs.
     - apply (inv_ntid _ I).
   Qed.
 
+  Lemma inv_write_snap st i t c vs d :
+    Inv st -> threads st i = Some t -> tkind t = KLookup ->
+    tc t = Some c -> vs <> [] ->
+    consistent (R st) (cur st) (quiet st) t vs (slots (tkey t)) ->
+    (forall k v, dget d k = Some v -> v <> []) ->
+    (tc t = Some (cur st) -> quiet st -> forall k v, dget d k = Some v -> v = lookup_over (R st) (slots k)) ->
+    Inv (set_heap st (upd (heap st) c (dset (tkey t) vs d))).
+  Proof.
+    intros I Hi Hk Hc Hne Hcons Hd1 Hd2.
+    constructor; simpl.
+    - intros c0 k vs0. destruct (Nat.eq_dec c0 c) as [->|Hn].
+      + rewrite upd_same, dget_dset. destruct (key_eqb k (tkey t)).
+        * intros E. inversion E. subst. exact Hne.
+        * apply Hd1.
+      + rewrite upd_other by auto. apply (inv_nonempty _ I).
+    - intros Hq k vs0. destruct (Nat.eq_dec (cur st) c) as [E|Hn].
+      + rewrite E, upd_same, dget_dset. destruct (key_eqb k (tkey t)) eqn:Ek.
+        * apply key_eqb_eq in Ek. subst k. intros E1. inversion E1. subst vs0.
+          apply Hcons; [congruence|exact Hq].
+        * intros E1. apply (Hd2 (ltac:(congruence)) Hq _ _ E1).
+      + rewrite upd_other by auto. apply (inv_fresh _ I Hq).
+    - apply (inv_cur _ I).
+    - intros j t0 Hj. apply (inv_threads _ I _ _ Hj).
+    - apply (inv_ntid _ I).
+  Qed.
+
   (* ---------- the two steps of a registration *)
   Lemma inv_register_adapter st i t :
     Inv st -> threads st i = Some t -> tkind t = KRegister -> cont t = RPs -> tpc t = 0 ->
@@ -278,7 +312,7 @@ Section Proofs.
     unfold step_thread.
     destruct B as [Hc Htc Hv|Hc Htc Hv|Hc Htc Hv|vs Hc Htc Hv Hne Hcs|Hc Htc Hv|Hc Htc Hv
                   |vs dn todo Hc Htc Hv Hsp Hcs|vs Hc Htc Hv Hne Hcs|vs Hc Htc Hv Hne Hcs
-                  |vs Hc Htc Hv Hcs|vs Hc Htc Hv Hcs|Hc].
+                  |vs Hc Htc Hv Hcs|vs Hc Htc Hv Hcs|Hc|vs d Hc Htc Hv Hne Hcs Hsn Hd1 Hd2].
     - (* S0: ReadPtr *)
       rewrite Hc. simpl. eapply inv_put_lookup; eauto.
       + apply S1; simpl; auto. discriminate.
@@ -310,9 +344,23 @@ Section Proofs.
         * rewrite <- app_assoc. exact Hsp.
         * intros E Hq. rewrite lookup_over_app, (Hcs E Hq). unfold lookup_over. simpl.
           rewrite app_nil_r. reflexivity.
-    - (* S7: Lock *)
-      rewrite Hc. simpl. destruct (lock st); [exact I|].
-      apply inv_set_lock. apply PUT; simpl; auto. eapply S8; simpl; eauto.
+    - (* S7: Lock | Write (no lock) | WriteLoad (no lock, read-modify-write) *)
+      destruct Hwb as [E|[E|E]]; rewrite E in Hc; rewrite Hc; simpl.
+      + destruct (lock st); [exact I|].
+        apply inv_set_lock. apply PUT; simpl; auto. eapply S8; simpl; eauto.
+      + rewrite Hv. destruct (tc t) as [c|] eqn:Etc; [|congruence].
+        eapply inv_put_lookup.
+        * eapply (inv_write st i t c vs); eauto.
+        * exact Hi.
+        * exact Hk.
+        * simpl. exact Hk.
+        * simpl. eapply S10; simpl; eauto. congruence.
+        * simpl. intros c0 E0. apply A. congruence.
+      + destruct (tc t) as [c|] eqn:Etc; [|congruence].
+        apply PUT; simpl; auto. eapply (SU8 _ _ _ _ vs (heap st c)); simpl; eauto; try congruence.
+        * intros k v Hkv. eapply (inv_nonempty _ I); eauto.
+        * intros E0 Hq k v Hkv. assert (Ec : c = cur st) by congruence. subst c.
+          apply (inv_fresh _ I Hq _ _ Hkv).
     - (* S8: Write *)
       rewrite Hc, Hv. simpl. destruct (tc t) as [c|] eqn:Etc; [|congruence].
       eapply inv_put_lookup.
@@ -327,6 +375,15 @@ Section Proofs.
     - (* S10: Return *)
       rewrite Hc. simpl. apply PUT; simpl; auto. apply S11. reflexivity.
     - rewrite Hc. exact I.
+    - (* SU8: WriteStore *)
+      rewrite Hc, Hv, Hsn. simpl. destruct (tc t) as [c|] eqn:Etc; [|congruence].
+      eapply inv_put_lookup.
+      + eapply (inv_write_snap st i t c vs d); eauto. rewrite Etc. exact Hd2.
+      + exact Hi.
+      + exact Hk.
+      + simpl. exact Hk.
+      + simpl. eapply S10; simpl; eauto. congruence.
+      + simpl. intros c0 E0. apply A. congruence.
   Qed.
 
   Lemma inv_step st i t : Inv st -> threads st i = Some t -> Inv (stepT st i t).
@@ -447,7 +504,7 @@ Section Proofs.
     unfold step_thread.
     destruct B as [Hc Htc Hv|Hc Htc Hv|Hc Htc Hv|vs Hc Htc Hv Hne Hcs|Hc Htc Hv|Hc Htc Hv
                   |vs dn todo Hc Htc Hv Hsp Hcs|vs Hc Htc Hv Hne Hcs|vs Hc Htc Hv Hne Hcs
-                  |vs Hc Htc Hv Hcs|vs Hc Htc Hv Hcs|Hc];
+                  |vs Hc Htc Hv Hcs|vs Hc Htc Hv Hcs|Hc|vs d Hc Htc Hv Hne Hcs Hsn Hd1 Hd2];
       rewrite Hc; try rewrite Hv.
     - simpl. repeat split. eexists. split; [intros j; reflexivity|]. split; [exact Hk|].
       intros _. right. left. simpl. split; [discriminate|reflexivity].
@@ -471,15 +528,25 @@ Section Proofs.
     - destruct todo as [|s todo']; simpl.
       + destruct vs as [|v vs']; simpl; repeat split; (eexists; split; [intros j; reflexivity|]; split; [exact Hk|]);
           (intros [[H1 _]|[[_ H1]|[H1 _]]]; [rewrite Hc in H1; discriminate| |rewrite Hc in H1; discriminate]);
-          right; left; simpl; (split; [discriminate|exact H1]).
+          right; left; simpl;
+          (split; [first [discriminate | intros X; apply app_eq_nil in X; destruct X; discriminate]|exact H1]).
       + repeat split. eexists. split; [intros j; reflexivity|]. split; [exact Hk|].
         intros [[H1 _]|[[_ H1]|[H1 _]]]; [rewrite Hc in H1; discriminate| |rewrite Hc in H1; discriminate].
         right. left. simpl. split; [|exact H1]. destruct todo'; discriminate.
-    - simpl. destruct (lock st); simpl; repeat split.
-      + exists t. split; [intros j; apply upd_self; exact Hi|]. split; [exact Hk|]. auto.
-      + eexists. split; [intros j; reflexivity|]. split; [exact Hk|].
+    - destruct Hwb as [E|[E|E]]; rewrite E in Hc |- *; simpl.
+      + destruct (lock st); simpl; repeat split.
+        * exists t. split; [intros j; apply upd_self; exact Hi|]. split; [exact Hk|]. auto.
+        * eexists. split; [intros j; reflexivity|]. split; [exact Hk|].
+          intros [[H1 _]|[[_ H1]|[H1 _]]]; [rewrite Hc in H1; discriminate| |rewrite Hc in H1; discriminate].
+          right. left. simpl. split; [discriminate|exact H1].
+      + destruct (tc t) as [c|] eqn:Etc; [|congruence]. simpl. repeat split.
+        eexists. split; [intros j; reflexivity|]. split; [exact Hk|].
         intros [[H1 _]|[[_ H1]|[H1 _]]]; [rewrite Hc in H1; discriminate| |rewrite Hc in H1; discriminate].
-        right. left. simpl. split; [discriminate|exact H1].
+        right. left. simpl. split; [discriminate|congruence].
+      + destruct (tc t) as [c|] eqn:Etc; [|congruence]. simpl. repeat split.
+        eexists. split; [intros j; reflexivity|]. split; [exact Hk|].
+        intros [[H1 _]|[[_ H1]|[H1 _]]]; [rewrite Hc in H1; discriminate| |rewrite Hc in H1; discriminate].
+        right. left. simpl. split; [discriminate|congruence].
     - simpl. destruct (tc t) as [c|] eqn:Etc; [|congruence]. simpl. repeat split.
       eexists. split; [intros j; reflexivity|]. split; [exact Hk|].
       intros [[H1 _]|[[_ H1]|[H1 _]]]; [rewrite Hc in H1; discriminate| |rewrite Hc in H1; discriminate].
@@ -491,6 +558,10 @@ Section Proofs.
       intros [[H1 _]|[[_ H1]|[H1 _]]]; [rewrite Hc in H1; discriminate| |rewrite Hc in H1; discriminate].
       right. right. simpl. split; [reflexivity|]. f_equal. apply Hcs; auto.
     - repeat split. exists t. split; [intros j; apply upd_self; exact Hi|]. split; [exact Hk|]. auto.
+    - rewrite Hsn. simpl. destruct (tc t) as [c|] eqn:Etc; [|congruence]. simpl. repeat split.
+      eexists. split; [intros j; reflexivity|]. split; [exact Hk|].
+      intros [[H1 _]|[[_ H1]|[H1 _]]]; [rewrite Hc in H1; discriminate| |rewrite Hc in H1; discriminate].
+      right. left. simpl. split; [discriminate|congruence].
   Qed.
 
   Lemma quiet_pointwise (th th' : tid -> option thread) i t t' :
@@ -585,7 +656,7 @@ Section Proofs.
       { induction todo as [|s r IHr]; simpl; [reflexivity|]. f_equal. exact IHr. }
       destruct B as [Hc Htc' Hv'|Hc Htc' Hv'|Hc Htc' Hv'|vs' Hc Htc' Hv' Hne' Hcs|Hc Htc' Hv'|Hc Htc' Hv'
                     |vs' dn todo Hc Htc' Hv' Hsp Hcs|vs' Hc Htc' Hv' Hne' Hcs|vs' Hc Htc' Hv' Hne' Hcs
-                    |vs' Hc Htc' Hv' Hcs|vs' Hc Htc' Hv' Hcs|Hc];
+                    |vs' Hc Htc' Hv' Hcs|vs' Hc Htc' Hv' Hcs|Hc|vs' d Hc Htc' Hv' Hne' Hcs Hsn Hd1 Hd2];
         try congruence;
         try (exists (slots (tkey t)); rewrite Hc; simpl; rewrite app_nil_r; split; [reflexivity|];
              assert (vs' = vs) by congruence; subst vs'; apply Hcs; auto).
@@ -595,6 +666,10 @@ Section Proofs.
         destruct todo as [|s todo']; simpl in *.
         * split; [exact Hsp|]. assert (vs' = vs) by congruence. subst vs'. apply Hcs; auto.
         * rewrite LD. split; [exact Hsp|]. assert (vs' = vs) by congruence. subst vs'. apply Hcs; auto.
+      + exists (slots (tkey t)). rewrite Hc.
+        assert (PW : pending sro (tkey t) (wb ++ [Return]) = [])
+          by (destruct Hwb as [E|[E|E]]; rewrite E; reflexivity).
+        rewrite PW, app_nil_r. split; [reflexivity|]. assert (vs' = vs) by congruence. subst vs'. apply Hcs; auto.
   Qed.
 
   (* lookup_fresh: a lookup that starts when no registration is in progress, and during which the
@@ -695,8 +770,10 @@ Section Proofs.
   Proof.
     intros K2.
     destruct K2 as [Hc2 _ _|Hc2 _ _|Hc2 _ _|? Hc2 _ _ _ _|Hc2 _ _|Hc2 _ _|? ? todo Hc2 _ _ _ _
-                   |? Hc2 _ _ _ _|? Hc2 _ _ _ _|? Hc2 _ _ _|? Hc2 _ _ _|Hc2];
-      rewrite Hc2; try reflexivity. destruct todo; reflexivity.
+                   |? Hc2 _ _ _ _|? Hc2 _ _ _ _|? Hc2 _ _ _|? Hc2 _ _ _|Hc2|? ? Hc2 _ _ _ _ _ _ _];
+      rewrite Hc2; try reflexivity.
+    - destruct todo; reflexivity.
+    - destruct Hwb as [E|[E|E]]; rewrite E; reflexivity.
   Qed.
 
   Definition no_spawn_register (l : label) : bool :=
@@ -841,16 +918,22 @@ Section Proofs.
 End Proofs.
 
 (* ================= the theorems for the programs of the current tree ================= *)
+(* the three bodies of [if views:] the development covers *)
+Definition wb_cases (wb : list instr) : Prop := wb = std_wb Local \/ wb = wb_nolock \/ wb = wb_nolock_split.
+Lemma HwbL : wb_cases (std_wb Local). Proof. left. reflexivity. Qed.
+Lemma HwbN : wb_cases wb_nolock. Proof. right. left. reflexivity. Qed.
+Lemma HwbS : wb_cases wb_nolock_split. Proof. right. right. reflexivity. Qed.
+
 Theorem lookup_fresh : fresh_claim lookup_prog register_prog.
 Proof.
   rewrite facts_lookup_prog, facts_register_prog.
-  intros sro R0 tr1 k tr2. apply lookup_fresh_std.
+  intros sro R0 tr1 k tr2. exact (lookup_fresh_std sro _ HwbL R0 tr1 k tr2).
 Qed.
 
 Theorem misses_not_cached : misses_claim lookup_prog register_prog.
 Proof.
   rewrite facts_lookup_prog, facts_register_prog.
-  intros sro R0 tr. apply misses_not_cached_std.
+  intros sro R0 tr. exact (misses_not_cached_std sro _ HwbL R0 tr).
 Qed.
 
 Lemma cache_inv : forall sro R0 tr,
@@ -861,7 +944,7 @@ Lemma cache_inv : forall sro R0 tr,
                   tc t = Some (cur st) -> tviews t = Some vs ->
                   exists dn, dn ++ pending sro (tkey t) (cont t) = slots_of sro (tkey t) /\
                              vs = lookup_over (R st) dn).
-Proof. rewrite facts_lookup_prog, facts_register_prog. exact cache_inv_std. Qed.
+Proof. rewrite facts_lookup_prog, facts_register_prog. exact (fun sro => cache_inv_std sro _ HwbL). Qed.
 
 Lemma no_stale_after_register : forall sro R0 tr0 i ti trm k tr2,
   let st0 := exec sro lookup_prog register_prog tr0 (init R0) in
@@ -873,7 +956,7 @@ Lemma no_stale_after_register : forall sro R0 tr0 i ti trm k tr2,
   reg_free sro lookup_prog register_prog st1 (SpawnLookup k :: tr2) = true ->
   exists t, threads st2 (ntid st1) = Some t /\ tkind t = KLookup /\ tkey t = k /\
             (cont t = [] -> tres t = Some (lookup_all sro (rapply (tups ti) (R st0)) k)).
-Proof. rewrite facts_lookup_prog, facts_register_prog. exact no_stale_after_register_std. Qed.
+Proof. rewrite facts_lookup_prog, facts_register_prog. exact (fun sro => no_stale_after_register_std sro _ HwbL). Qed.
 
 Lemma concurrent_equals_sequential : forall sro R0 tr j t,
   reg_free sro lookup_prog register_prog (init R0) tr = true ->
@@ -884,15 +967,15 @@ Lemma concurrent_equals_sequential : forall sro R0 tr j t,
     cont t0 = [] -> tres t = tres t0.
 Proof.
   rewrite facts_lookup_prog, facts_register_prog. intros sro R0 tr j t Hf Hj Hk Hc. split.
-  - eapply concurrent_answer_std; eauto.
-  - intros n t0 H0 Hc0. eapply concurrent_equals_sequential_std; eauto.
+  - eapply (concurrent_answer_std sro _ HwbL); eauto.
+  - intros n t0 H0 Hc0. eapply (concurrent_equals_sequential_std sro _ HwbL); eauto.
 Qed.
 
 Lemma expect_sound : forall sro R0 tr j vs t,
   expect sro lookup_prog register_prog (init R0) tr (fun _ => None) j = Some vs ->
   threads (exec sro lookup_prog register_prog tr (init R0)) j = Some t -> cont t = [] ->
   tkind t = KLookup /\ tres t = Some vs.
-Proof. rewrite facts_lookup_prog, facts_register_prog. exact expect_sound_std. Qed.
+Proof. rewrite facts_lookup_prog, facts_register_prog. exact (fun sro => expect_sound_std sro _ HwbL). Qed.
 
 (* requests: _call_view only reads the candidate list, so whenever the expectation constrains the
    lookup of a request, the request is answered by the first accepting candidate of lookup_all *)
@@ -911,6 +994,25 @@ Proof.
   destruct (expect_sound sro R0 tr j vs t He Ht Hc) as [_ H].
   unfold request_answer. rewrite facts_call_view_reads_only, facts_multiview_stateless, H. reflexivity.
 Qed.
+
+(* ================= what the lock is needed for =================
+   Nothing, for this property: with the lock removed -- and even under a finer atomicity in which
+   [cache[key] = views] is a separate read and a write-back of the whole dictionary (a lost-update
+   race is then possible) -- every theorem above still holds.  A lost update only loses a cache entry
+   (a later miss), never produces a stale or empty one: what is written back is a snapshot of the same
+   dictionary, and a dictionary that is current while no registration is in progress has only ever
+   received up-to-date entries. *)
+Theorem lookup_fresh_nolock : fresh_claim (lookup_with wb_nolock) register_prog.
+Proof. rewrite facts_register_prog. intros sro R0 tr1 k tr2. exact (lookup_fresh_std sro _ HwbN R0 tr1 k tr2). Qed.
+
+Theorem lookup_fresh_nolock_split : fresh_claim (lookup_with wb_nolock_split) register_prog.
+Proof. rewrite facts_register_prog. intros sro R0 tr1 k tr2. exact (lookup_fresh_std sro _ HwbS R0 tr1 k tr2). Qed.
+
+Theorem misses_not_cached_nolock : misses_claim (lookup_with wb_nolock) register_prog.
+Proof. rewrite facts_register_prog. intros sro R0 tr. exact (misses_not_cached_std sro _ HwbN R0 tr). Qed.
+
+Theorem misses_not_cached_nolock_split : misses_claim (lookup_with wb_nolock_split) register_prog.
+Proof. rewrite facts_register_prog. intros sro R0 tr. exact (misses_not_cached_std sro _ HwbS R0 tr). Qed.
 
 (* ================= concrete world for examples and refutations ================= *)
 Definition sro1 (i : N) : list N :=
@@ -999,4 +1101,22 @@ Example three_threads_finish :
 Proof.
   vm_compute. split; [reflexivity|]. split; [reflexivity|].
   eexists. split; [reflexivity|]. split; reflexivity.
+Qed.
+
+(* what the finer atomicity does cost: a lost update.  Two lookups of different keys read the same
+   dictionary before either writes back; the second write-back drops the first entry.  Both answers
+   are right, the cache merely misses k1 next time. *)
+Definition k2 : key := (1, 11, 1)%N.
+Definition R2 : reg := [(sA, Some 1%N); ((1, 11, 0, 1)%N, Some 3%N)].
+Definition tr_lost : list label :=
+  [SpawnLookup k1; SpawnLookup k2] ++ steps 0 25 ++ steps 1 25 ++ steps 0 2 ++ steps 1 2.
+Definition st_lost : state := exec sro1 (lookup_with wb_nolock_split) register_prog tr_lost (init R2).
+Example lost_update_is_only_a_miss :
+  dget (heap st_lost (cur st_lost)) k1 = None /\
+  dget (heap st_lost (cur st_lost)) k2 = Some [3%N] /\
+  (exists t0, threads st_lost 0 = Some t0 /\ cont t0 = [] /\ tres t0 = Some [1%N]) /\
+  (exists t1, threads st_lost 1 = Some t1 /\ cont t1 = [] /\ tres t1 = Some [3%N]).
+Proof.
+  vm_compute. split; [reflexivity|]. split; [reflexivity|].
+  split; eexists; (split; [reflexivity|]); split; reflexivity.
 Qed.
